@@ -245,7 +245,7 @@ fn configs(thorough: bool, seed: u64) -> Vec<Cfg> {
 }
 
 fn boundaries(cfg: &Cfg) -> Vec<f32> {
-    let mut b = vec![0.0f32, cfg.delay];
+    let mut b = vec![0.0f32, -0.0, cfg.delay];
     let n = cfg.rep.cycles().unwrap_or(6).min(6);
     for j in 0..=(2 * n) {
         b.push(cfg.delay + j as f32 * cfg.cycle / 2.0);
